@@ -89,7 +89,7 @@ class Ctx:
     def __init__(self, tier: str = "quick", jobs: int | None = None, progress: bool = False) -> None:
         self.tier = tier
         self.prog = Program()
-        self.jobs = jobs or min(16, os.cpu_count() or 1)
+        self.jobs = jobs or int(os.environ.get("CFDPSA_JOBS", "0") or 0) or min(16, os.cpu_count() or 1)
         self.progress = progress
         self._ats: dict[tuple, ATS] = {}
         self._harness: dict[tuple, Harness] = {}
@@ -102,13 +102,17 @@ class Ctx:
 
     def ats(self, which: str, fault_table: str = "default", with_reset: bool = False, follow_undrained: bool = False,
             k_iter: int = 2, k_while: int = 3) -> ATS:
+        if self.tier == "thorough" and os.environ.get("CFDPSA_THOROUGH_ATS", "1") == "1":
+            # deeper exploration: users that never retrieve queued PDUs are followed, unknown collections are explored to 3 elements
+            follow_undrained, k_iter = True, max(k_iter, 3)
         key = (which, fault_table, with_reset, follow_undrained, k_iter, k_while)
         if key in self._ats:
             return self._ats[key]
         CACHE.mkdir(parents=True, exist_ok=True)
         tag = hashlib.sha256(repr((self.prog.digest, analyser_digest(), key)).encode()).hexdigest()[:20]
-        path = CACHE / f"ats-{which}-{fault_table}-{tag}.pkl"
-        lock = CACHE / f"ats-{which}-{fault_table}-{tag}.lock"
+        variant = fault_table + ("-deep" if follow_undrained else "")
+        path = CACHE / f"ats-{which}-{variant}-{tag}.pkl"
+        lock = CACHE / f"ats-{which}-{variant}-{tag}.lock"
         h = Harness(self.prog, which, fault_table, k_iter=k_iter, k_while=k_while)
         with open(lock, "w") as lf:
             fcntl.flock(lf, fcntl.LOCK_EX)
@@ -126,7 +130,7 @@ class Ctx:
             if a is None:
                 if self.progress:
                     print(f"  building the abstract transition system of the {which} handler ({fault_table} fault table) ...", flush=True)
-                a = ATS(h, tier="quick", with_reset=with_reset, follow_undrained=follow_undrained, jobs=self.jobs, progress=self.progress)
+                a = ATS(h, tier="quick", with_reset=with_reset, follow_undrained=follow_undrained, jobs=self.jobs, progress=self.progress, max_nodes=60000)
                 a.cached = False
                 data = {k: v for k, v in a.__dict__.items() if k not in ("h", "_interned")}
                 tmp = path.with_suffix(".tmp%d" % os.getpid())
@@ -134,7 +138,7 @@ class Ctx:
                     pickle.dump(data, f, protocol=pickle.HIGHEST_PROTOCOL)
                 os.replace(tmp, path)
                 # keep the cache small: only the most recent entries per handler/table survive
-                olds = sorted((o for o in CACHE.glob(f"ats-{which}-{fault_table}-*.pkl") if o != path), key=lambda o: o.stat().st_mtime, reverse=True)
+                olds = sorted((o for o in CACHE.glob(f"ats-{which}-{variant}-*.pkl") if o != path), key=lambda o: o.stat().st_mtime, reverse=True)
                 for old in olds[5:]:
                     try:
                         old.unlink()
